@@ -3,7 +3,9 @@ import GoaVerif.Model.Security
 /-!
 `sec <nosec> M <k> (<n> <scheme>*)* S <k> (…)* A <k> (…)* ACC <k> <scheme>*` →
 `calls=<scheme,…|~> refused=<scheme|~>` (scheme names hex) ·
-`cred <inHeader> <hex>` → the credential the callback receives (hex).
+`cred <inHeader> <hex>` → the credential the callback receives (hex) ·
+`credf <k> <field>* <field> <hex>` → the value of that payload field after the server decoder ran its
+stripping blocks for the header schemes' credential fields (`decodeEndpoint`).
 -/
 namespace GoaVerif.Drive.Security
 open GoaVerif GoaVerif.Security
@@ -42,6 +44,17 @@ def handle : List String → Option String
     let calls := if o.calls.isEmpty then "~" else ",".intercalate (o.calls.map encString)
     some s!"calls={calls} refused={match o.refusedBy with | some f => encString f | none => "~"}"
   | ["cred", h, v] => do some (encString (credential (h == "1") (← hexToString v)))
+  | "credf" :: k :: ts => do
+    -- the credential fields of the endpoint's header schemes (requirement order, with repeats),
+    -- then one field of the decoded payload and the value sent
+    let (fs, rest) ← takeNames (← k.toNat?) ts
+    match rest with
+    | [f, v] => do
+      let f ← hexToString f
+      match decodeEndpoint fs [(f, ← hexToString v)] with
+      | [(_, out)] => some (encString out)
+      | _ => none
+    | _ => none
   | _ => none
 
 end GoaVerif.Drive.Security
